@@ -147,6 +147,7 @@ typedef struct _tjinstance {
   int saveMarkers;
   unsigned char *iccBuf, *tempICCBuf;
   size_t iccSize, tempICCSize;
+  int tempICCMarkers;
 } tjinstance;
 
 /* Record a libjpeg API library message in the TurboJPEG instance that owns the
@@ -1857,6 +1858,7 @@ DLLEXPORT int tj3DecompressHeader(tjhandle handle,
   int retval = 0;
   unsigned char *iccPtr = NULL;
   unsigned int iccLen = 0;
+  jpeg_saved_marker_ptr marker;
 
   GET_DINSTANCE(handle);
   if ((this->init & DECOMPRESS) == 0)
@@ -1877,6 +1879,7 @@ DLLEXPORT int tj3DecompressHeader(tjhandle handle,
   free(this->tempICCBuf);
   this->tempICCBuf = NULL;
   this->tempICCSize = 0;
+  this->tempICCMarkers = 0;
 
   /* Extract ICC profile if TJPARAM_SAVEMARKERS is 2 or 4.  (We could
      eventually reuse this mechanism to save other markers, if needed.)
@@ -1898,6 +1901,13 @@ DLLEXPORT int tj3DecompressHeader(tjhandle handle,
       free(this->tempICCBuf);
       this->tempICCBuf = iccPtr;
       this->tempICCSize = (size_t)iccLen;
+      /* Each APP2 marker that carries a piece of the profile costs 18 bytes in
+         addition to the profile data when tj3Transform() copies it. */
+      for (marker = dinfo->marker_list; marker != NULL; marker = marker->next) {
+        if (marker->marker == JPEG_APP0 + 2 && marker->data_length >= 14 &&
+            !memcmp(marker->data, "ICC_PROFILE\0", 12))
+          this->tempICCMarkers++;
+      }
     }
   }
 
@@ -2952,9 +2962,10 @@ DLLEXPORT size_t tj3TransformBufSize(tjhandle handle,
      an ICC profile is copied from the source image. */
   if ((this->saveMarkers == 2 || this->saveMarkers == 4) &&
       !(transform->options & TJXOPT_COPYNONE) && this->tempICCSize != 0)
-    retval += this->tempICCSize;
-  else
-    retval += this->iccSize;
+    retval += this->tempICCSize + 18 * (size_t)this->tempICCMarkers;
+  else if (this->iccSize != 0)
+    retval += this->iccSize + 18 * (this->iccSize / 65519 +
+                                    (this->iccSize % 65519 != 0));
 
 bailout:
   return retval;
